@@ -1,3 +1,4 @@
 -- Root of the library: every property file (statements + proofs) is built by `lake build`.
 import Casket.Props.C05
 import Casket.Props.C16
+import Casket.Props.C08
